@@ -355,7 +355,7 @@ func (g Gateway) Get(ctx context.Context, in *hydrapb.GetRequest) (*hydrapb.GetR
 		if _, err := checkSwampName(g.ZeusInterface, swampRequest.GetIslandID(), swampRequest.SwampName, checkExistence); err != nil {
 			return nil, err
 		}
-		if swampRequest.GetKeys() == nil || swampRequest.GetKeys()[0] == "" {
+		if len(swampRequest.GetKeys()) == 0 || swampRequest.GetKeys()[0] == "" {
 			// return with grpc error message
 			return nil, status.Error(codes.InvalidArgument, "Keys cannot be empty")
 		}
